@@ -480,6 +480,29 @@ _EXTRA8B = {
 for _k, _v in _EXTRA8B.items():
     CHECKS[_k]["rule"] += _v
 
+# ninth round
+_EXTRA9 = {
+    "C01": " Ninth round: object-count histories (verify under A, W-4 decodes of other public keys, then seven rounds of verify-A / fresh "
+           "object of B / verify-B, W = 2^8 and 2^16, before any other thread of the leg exists).",
+    "C02": " Ninth round: valid triples on extreme-hash inputs from the reference scan (s2 = 1, h = c - s1); verify while a thread is being "
+           "torn down; one valid and one invalid triple verified 120000 times each on all cores (3e6 thorough).",
+    "C03": " Ninth round: shared-first-use rounds: a freshly decoded public key handed to 2..16 threads behind a barrier, each verifying with it.",
+    "C05": " Ninth round: decode volume: the same valid secret-key bytes decoded 160000 (Falcon-512) / 48000 (Falcon-1024) times per quick "
+           "run on all cores (3e6 / 1.2e6 thorough); every result must equal the original.",
+    "C06": " Ninth round: semantic extensions (the secret key followed by an 8-bit section holding its own G, F, -G, its public key, itself "
+           "again; the public key followed by itself), each offered twice.",
+    "C08": " Ninth round: signatures around CAUGHT PANICS of sign (a generator hook that unwinds makes one sign call per round panic).",
+    "C09": " Ninth round: limb carry edges of the wide products in ApproxExp: for the final product (z from ccs, y from x) and the first one "
+           "(z from x, y = C[0]) the controlled operand is solved from a congruence modulo 2^32 so that the middle column of a 32-bit-limb "
+           "product sums to 2^32-1, 2^32-2, 2^32 or 2^32+1, with or without the carry of the lowest partial product.",
+    "C11": " Ninth round: rejected-length probes followed by valid operations; operations during thread exit.",
+    "C12": " Ninth round: a division by zero (panics; outside the domain) followed by valid operations on the same thread.",
+    "C13": " Ninth round: histories that start with a transform of an unsupported length (outcome ignored).",
+    "C14": " Ninth round: HashToPoint during thread exit; one input hashed 200000 times on all cores.",
+}
+for _k, _v in _EXTRA9.items():
+    CHECKS[_k]["rule"] += _v
+
 NOT_APPLICABLE = {}
 
 ENGINES = [
